@@ -53,3 +53,113 @@ def correspond(prop, rep, c, cases, judge, name, shard=150):
                           broken="correspondence LR/Driver.v <-> lalrpop-util/src/state_machine.rs", coq_check=checks[i]),
                           nofail=True)
     return dec, len(bad)
+
+
+# ---------------------------------------------------------------- certificates
+
+def certify(prop, rep, c, parts=("valid",), name="cert"):
+    """Kernel-check (vm_compute) the validator on every translated table with a freshly computed
+    certificate.  Returns (n_obligations, n_discharged, failing entries)."""
+    import lrcert
+    hdr = "From Coq Require Import List ZArith Bool.\nFrom LV Require Import LR.Driver LR.Validator.\nImport ListNotations.\n"
+    checks, owners = [], []
+    shards = {}
+    for e in c.ok:
+        cert = lrcert.analyse(e["t"])
+        e["cert"] = cert
+        tid = e["tid"]
+        hdr_e = "Definition T_%s : tables := %s.\nDefinition C_%s : cert := %s.\n" % (tid, lrtab.to_coq(e["t"]), tid, lrcert.to_coq(e["t"], cert))
+        e["coq_defs"] = hdr_e
+    # one shard per group of tables so that headers stay small
+    group = 6
+    bad_all = []
+    import os, subprocess, re, shutil, time as _t
+    d = os.path.join(vlib.CACHE, "cases", name)
+    shutil.rmtree(d, ignore_errors=True)
+    os.makedirs(d)
+    procs = []
+    for gi in range(0, len(c.ok), group):
+        es = c.ok[gi:gi + group]
+        f = os.path.join(d, "cert%d.v" % gi)
+        with open(f, "w") as w:
+            w.write(hdr)
+            for e in es:
+                w.write(e["coq_defs"])
+            terms = []
+            for e in es:
+                for part in parts:
+                    if part == "productive" and not e["g"].reduced(e["start"]):
+                        continue
+                    arg = "T_%s" % e["tid"] if part == "start_eof_only" else "T_%s C_%s" % (e["tid"], e["tid"])
+                    terms.append((e, part, "%s %s" % (part, arg)))
+            w.write("Eval vm_compute in [%s].\n" % "; ".join(t[2] for t in terms))
+        procs.append((terms, f, subprocess.Popen(["coqc", "-noglob"] + vlib.COQ_FLAGS + [f], stdout=subprocess.PIPE,
+                                                 stderr=subprocess.STDOUT, text=True)))
+        while sum(1 for _, _, p in procs if p.poll() is None) >= vlib.NPROC:
+            _t.sleep(0.05)
+    nobl = ndis = 0
+    failing = []
+    for terms, f, p in procs:
+        out, _ = p.communicate(timeout=1800)
+        if p.returncode != 0:
+            raise RuntimeError("coqc failed on %s:\n%s" % (f, out[-2000:]))
+        m = re.search(r"=\s*\[(.*?)\]\s*:\s*list bool", out, re.S)
+        vals = re.findall(r"true|false", m.group(1))
+        assert len(vals) == len(terms), (len(vals), len(terms), out[-500:])
+        for (e, part, term), v in zip(terms, vals):
+            nobl += 1
+            if v == "true":
+                ndis += 1
+            else:
+                failing.append((e, part))
+    return nobl, ndis, failing
+
+
+def report_cert_failures(prop, rep, c, failing, found_concrete):
+    """a certificate that no longer validates: the property is not shown for that parser"""
+    if failing and not found_concrete:
+        for e, part in failing[:2]:
+            rep.violation("certificate:" + part, {
+                "what": "the validator condition `%s` no longer holds for the tables lalrpop generates for this grammar, so the "
+                        "theorems of Props/%s.v do not apply to it; no input contradicting the statement was found" % (part, prop),
+                "broken": "kernel check of LR.Validator.%s on translated tables" % part,
+                "grammar": e["g"].name, "grammar_text": e["g"].render(lalr=lrengine.MODES[e["mode"]][1]), "mode": e["mode"], "start": e["start"]},
+                nofail=True)
+
+
+# ---------------------------------------------------------------- inputs and tree helpers
+
+def gen_words(g, start, r, n, depth=6):
+    """mostly-valid inputs: sentences, few-step mutations of sentences, and a short random stream"""
+    out = []
+    for i in range(n):
+        w = g.random_sentence(r, start, depth=r.randint(1, depth))
+        k = i % 4
+        if k == 1:
+            w = lrengine.mutate(g, w, r)
+        elif k == 2:
+            w = lrengine.mutate(g, lrengine.mutate(g, w, r), r)
+        elif k == 3 and r.random() < 0.4:
+            w = [r.choice(g.terms) for _ in range(r.randint(0, 6))]
+        out.append(w)
+    return out
+
+
+def words_of(items, t):
+    names = t["tnames"]
+    return [names[it[1]].strip('"') if it[1] >= 0 else None for it in items if it[0] == "k"]
+
+
+def leaves(tr):
+    if "leaf" in tr:
+        return [tr["leaf"]]
+    if "err" in tr:
+        return []
+    return [x for k in tr["kids"] for x in leaves(k)]
+
+
+def postorder(tr, start):
+    if "kids" not in tr:
+        return []
+    out = [x for k in tr["kids"] for x in postorder(k, start)]
+    return out + ([tr["p"]] if tr["p"] != start else [])
